@@ -48,7 +48,7 @@ type hop struct {
 	ValTy  json.RawMessage `json:"valty,omitempty"`  // its type
 	Trav   string          `json:"trav,omitempty"`   // absolute traversal, source text
 	Raw    string          `json:"raw,omitempty"`    // expression / comment source text to be lexed
-	Labels []string        `json:"labels,omitempty"` // block labels
+	Labels labelList       `json:"labels,omitempty"` // block labels (unicode.go: any byte string; non-UTF-8 ones travel as {"hex": ...})
 	Index  int             `json:"index,omitempty"`  // block index in Blocks() / shelf index
 	// set-raw only: the caller builds the tokens with a public generator function
 	// ("tuple", "call", "object") from the pieces Parts (source text, lexed) instead of lexing Raw
@@ -167,8 +167,10 @@ func (o hop) traversal() hcl.Traversal {
 
 // ---- pools -----------------------------------------------------------------------
 
-var attrNames = []string{"a", "b", "foo", "bar", "count", "tags", "name", "x1", "a-b", "_u", "k_2", "ünï", "in", "for", "null"}
-var blockTypes = []string{"resource", "b", "data", "locals", "x", "a", "dynamic"}
+var attrNames = []string{"a", "b", "foo", "bar", "count", "tags", "name", "x1", "a-b", "_u", "k_2", "ünï", "in", "for", "null",
+	// identifiers are written and read back as given: a name that is not NFC and its NFC form are two names
+	"cafe\u0301", "caf\u00e9", "\u1100\u1161", "\u212b"}
+var blockTypes = []string{"resource", "b", "data", "locals", "x", "a", "dynamic", "cafe\u0301", "\uac00"}
 var goodLabels = []string{"l", "aws_instance", "a b", "", `q"r`, "ünï", "tab\tx", "nl\nx", "x.y", "z"}
 var templLabels = []string{"a$b", "x%y", "p${q}", "%{if}", "$", "100%", "$${x}"}
 var commentTexts = []string{"c", " todo: x = 1", " a { b }", " \"q", " ${x}", " é", "", " spaced  out "}
@@ -193,6 +195,10 @@ func genVal(r *hv.Rng, depth int) cty.Value {
 		}
 		return cty.NumberIntVal(int64(r.Intn(200)))
 	case 2, 3:
+		if r.Chance(0.2) {
+			// unicode.go: cty.StringVal normalises what the caller gives it; what is written must read back as that
+			return cty.StringVal(genUniValid(r))
+		}
 		return cty.StringVal(valStrings[r.Intn(len(valStrings))])
 	case 4:
 		return cty.BoolVal(r.Chance(0.5))
@@ -227,7 +233,7 @@ func genVal(r *hv.Rng, depth int) cty.Value {
 		}
 		m := map[string]cty.Value{}
 		for i := 0; i < n; i++ {
-			m[r.Pick("k", "a b", "x1", "ünï", "1x", "a.b")] = cty.NumberIntVal(int64(r.Intn(9)))
+			m[r.Pick("k", "a b", "x1", "ünï", "1x", "a.b", "cafe\u0301", "\u1100\u1161\u11a8", "\U0001D15E")] = cty.NumberIntVal(int64(r.Intn(9)))
 		}
 		return cty.MapVal(m)
 	case 9:
@@ -241,7 +247,7 @@ func genVal(r *hv.Rng, depth int) cty.Value {
 		n := r.Small(3)
 		m := map[string]cty.Value{}
 		for i := 0; i < n; i++ {
-			m[r.Pick("k", "name", "a b", "x1", "in", "1x", "if")] = genVal(r, depth+1)
+			m[r.Pick("k", "name", "a b", "x1", "in", "1x", "if", "cafe\u0301", "\u212b", "\ufb01")] = genVal(r, depth+1)
 		}
 		return cty.ObjectVal(m)
 	}
@@ -249,16 +255,16 @@ func genVal(r *hv.Rng, depth int) cty.Value {
 
 func genTraversal(r *hv.Rng) string {
 	var sb strings.Builder
-	sb.WriteString(r.Pick("var", "local", "a", "module", "each", "ünï"))
+	sb.WriteString(r.Pick("var", "local", "a", "module", "each", "ünï", "cafe\u0301"))
 	n := r.Small(4)
 	for i := 0; i < n; i++ {
 		switch r.Intn(4) {
 		case 0, 1:
-			sb.WriteString("." + r.Pick("name", "id", "x1", "a-b", "in"))
+			sb.WriteString("." + r.Pick("name", "id", "x1", "a-b", "in", "cafe\u0301", "\u1100\u1161"))
 		case 2:
 			fmt.Fprintf(&sb, "[%d]", r.Intn(5))
 		default:
-			sb.WriteString(`["` + r.Pick("k", "a b", "x") + `"]`)
+			sb.WriteString(`["` + r.Pick("k", "a b", "x", "cafe\u0301", "\u1100\u1161\u11a8", "\U0001D15E", "\ufb01") + `"]`)
 		}
 	}
 	return sb.String()
@@ -335,6 +341,11 @@ func (g *textGen) label() string {
 		g.feat["init:template-char-label"]++
 		return `"` + g.r.Pick("a$b", "x%y", "$", "p$${q}", "100%", "%%{x}") + `"`
 	default:
+		if g.r.Chance(0.12) {
+			// labels of the SOURCE are not normalised by anybody: the readers give the bytes of the text
+			g.feat["init:non-nfc-or-non-bmp-label"]++
+			return `"` + g.r.Pick("cafe\u0301", "\u1100\u1161\u11a8", "\u212b", "\U0001D15E", "\U0001F600", `e\u0301`, `\U0001D15E`, "\ufb01") + `"`
+		}
 		return `"` + g.r.Pick("l", "a b", "ü", `q\"q`, "x.y", "", "aws_instance", `t\tx`, `ué`) + `"`
 	}
 }
@@ -461,8 +472,35 @@ func (g *histGen) attrName(b *mBody, wantExisting float64) string {
 
 func (g *histGen) labels() []string {
 	n := g.r.Small(3)
+	// arbitrary Unicode arguments (unicode.go): in about a fifth of the label-setting calls every label is
+	// drawn from the non-NFC / Hangul jamo / singleton / supplementary-plane / NFKC-only / not-UTF-8 alphabet
+	uni := g.r.Chance(0.22)
+	if uni && n == 0 {
+		n = 1
+	}
 	ls := make([]string, n)
+	g.feat["arg:label-setting-call"]++
+	defer func() {
+		special, changed := false, false
+		for _, l := range ls {
+			if c := uniClass(l); c != ucPlain {
+				g.feat["arg:label:"+c]++
+			}
+			special = special || nonNFCorNonBMP(l)
+			changed = changed || changedByWriter(l)
+		}
+		if special {
+			g.feat["arg:label-setting-call-with-non-nfc-or-non-bmp-label"]++
+		}
+		if changed {
+			g.feat["arg:label-setting-call-with-label-the-writer-must-change(non-nfc/not-utf8)"]++
+		}
+	}()
 	for i := range ls {
+		if uni && (i == 0 || g.r.Chance(0.7)) {
+			ls[i] = genUniString(g.r)
+			continue
+		}
 		if g.allowTempl && g.r.Chance(0.3) {
 			ls[i] = templLabels[g.r.Intn(len(templLabels))]
 			g.feat["arg:template-char-label"]++
